@@ -377,4 +377,22 @@ def simulateAll {μ δ ρ : Type} (sim : μ → δ → ρ) (models : List μ) (d
       let d ← datas[j]?
       pure (sim m d)
 
+
+/-! ## Measurement certificate (`_solve_measurement_equations`: `Z = -F \ G[:, nf:]`, `H = -F \ J`, `D = -F \ H`) -/
+
+/-- max-abs of `G[:, :nf]` (leads of transition variables inside measurement equations: the code drops these columns, so the
+measurement equations are claimed only when this block is exactly zero), of `F Z + G[:, nf:]`, `F D + H`, `F Hm + J`, and the scale -/
+def measurementCertificate (nf : Nat) (F G Hc Jm Z Hm D : QMat) : Rat × Rat × Rat × Rat × Rat :=
+  let scale := [F, G, Hc, Jm, Z, Hm, D].foldl (fun m a => if m < a.maxAbs then a.maxAbs else m) 1
+  ((colsTo G nf).maxAbs, (F * Z + colsFrom G nf).maxAbs, (F * D + Hc).maxAbs, (F * Hm + Jm).maxAbs, scale)
+
+/-- discipline of a history (no observation and no copy between an `assign` and the next `solve`): the hypothesis of `runObj_pure` -/
+def disciplinedOps {π : Type} : Bool → List (ObjOp π) → Bool
+  | _, [] => true
+  | _, .assign _ :: ops => disciplinedOps false ops
+  | _, .solve :: ops => disciplinedOps true ops
+  | fr, .obs _ :: ops => fr && disciplinedOps fr ops
+  | fr, .copy :: ops => fr && disciplinedOps fr ops
+  | fr, .obsCopy _ _ :: ops => disciplinedOps fr ops
+
 end IrisVerif.FirstOrder
